@@ -24,6 +24,11 @@ CHECKS = {
    text="Model checking: TimeLimit.tla models the interpreter loops that can nest on the host stack (main, callback loop, nested VM, regex matcher, lookaround sub-matcher), their shared counters and poll points over a virtual clock; TLC explores all nestings up to depth 4-5 and every position of the deadline relative to every counter: LateBound (at most one poll interval of VM instructions and of regex steps after the deadline), NeverCaught, NoLateFinish; the three pre-fix behaviours (fresh counters per nested VM / per regex attempt, catchable limit error) each violate their invariant (non-vacuity). Conformance: TLC enumerates keep-running constructs (while/for/do-while/labelled continue/self and mutual recursion/catastrophic regex/many short regex calls/lookahead/nested eval loops) x 24 places where script code runs (top level, function, arrow, constructor, every callback-taking array method, sort comparator, getter, setter, valueOf, call/apply/bind, indirect eval, new Function, eval in eval, callback in callback) x 7 try/catch/finally wrappers x T x memory_limit (quick 830, thorough ~6700 scripts) plus finite twins that must not be stopped; every script runs with time.monotonic replaced by a clock that advances one tick per hooked instruction/regex step; TLC judges outcome = TimeLimitError, late VM steps <= 1000 + 2, late regex steps <= 100 + 2.",
    design_ref="DESIGN.md 5/C01",
    note="Trusted: TLC, the hook sites (one per interpreter/regex loop; a loop added without a hook executes unseen steps - the wall-clock watchdog then reports hang), the virtual clock substitution. Wall-clock seconds are recorded, not judged; a single native operation on a huge operand is outside the property's scope."),
+ "C03": dict(
+   technique="TLA+ reference model of property access (Sandbox.tla: NonInterference, NoPhantom, TypeOK) model-checked by TLC; paired executions (internal name vs fresh name) and observable-value kinds recorded through the hook judged by TLC",
+   text="Model checking: Sandbox.tla models lookup by receiver over own properties, the receiver kind's fixed built-in list and the prototype chain; TLC explores all operation sequences over a small object graph (74k distinct / 4.2M generated states) and checks that two names unknown to every table are indistinguishable under every access form, that an unknown name never resolves to anything, and TypeOK. Conformance: TLC enumerates 22 receiver kinds x 18 access forms; the driver harvests EVERY attribute name of every class of microjs.values/vm/context/compiler, of live engine objects, and the host dunder vocabulary (~700 names on the current tree; names that C03.tla lists as JavaScript properties are classified as such), and runs each (receiver, form) once with the internal name and once with a fresh name: TLC judges the two observations equal kind-for-kind (name masked), no host function invoked unless the form calls it. Every corpus program and ~100-450 generated programs run with a hook that classifies each value becoming observable (operands of STORE_*, SET_PROP, RETURN, THROW, call arguments, literal elements) and each value returned to the embedder: TLC judges JsVal!TypeOK. Quick samples 100 names (36k pairs), thorough uses all (~280k pairs).",
+   design_ref="DESIGN.md 5/C03",
+   note="Trusted: TLC; the value classifier (harness/wire.py to_wire); the list Legit in C03.tla. A host exception that escapes identically for the internal and the fresh name is C04's business, not judged here."),
 }
 NOT_APPLICABLE = {}
 ALL = ["C%02d" % i for i in range(1, 21)]
